@@ -59,6 +59,8 @@ with both repairs; all 21 caught, typical signature in brackets):
   M18 DataEdit.permit always keeps 'source'                             [wrong-data/edit]
   M19 DataEdit.add_output reads the block's output once                 [wrong-data/edit*]
       (needs a toggle of the source block between two deliveries)
+  seeded/C16-s4 IfOutput returns the control block's output itself: needs a control block whose
+      output is a non-empty dict (it would replace the event data)      [wrong-data/ifout*]
   M20 NotIfInitialized tests 'init_steps_completed >= 2' (a different
       notion of initialised)                                            [nii-race/dropped-for-uninitialised]
       (needs: coroutine failure/time-out, InitAsync initdef, target without initdef created first)
@@ -105,6 +107,7 @@ RULE = ("one run = one circuit: sender block with 1-4 Events x pipelines of 0-3 
         "deciding filter, race pattern)")
 REACH_EXPECTED = ['veto_mid_pipeline', 'edit_seen_by_later_filter', 'delta_last_passed_matters',
                   'edge_from_undef', 'edge_same_level', 'ifoutput_pass', 'ifoutput_veto',
+                  'ifoutput_pass_mapping_output',
                   'ifoutput_stale_inverter', 'edit_keyerror', 'modify_reject', 'modify_delete',
                   'nonstring_key', 'readonly_mapping', 'userdict', 'empty_dict_replaces',
                   'class_form', 'instance_form', 'filter_raises', 'add_output',
@@ -126,6 +129,9 @@ FALSY = [0, False, None, '', [], 0.0]
 TRUTHY = [1, True, 'x', [0], 2.5, -1]
 UM = fm.UNDEF_MARK
 POOL = FALSY + TRUTHY
+# outputs of the control blocks: also containers, in particular mappings (an Input that
+# holds a settings dict) - a filter result that is a MutableMapping would replace the data
+CTRL_POOL = POOL + [{}, {'k': 1}, {'value': 9, 'x': 'y'}, {'source': 'forged'}, [1, 2], [[]]]
 KEYS = ['a', 'b', 'c', 'value', 'previous']
 NUMS = [-2, -1, -0.5, 0, 0.25, 0.5, 1, 1.5, 2, 2.5, 3, 4, 5.5]
 DELTAS = [0, 0.5, 1, 1, 2, 2.5]
@@ -315,7 +321,7 @@ def gen(rng, tier, index=0):
                 'ops': ops, 'table': True}
     exact = rng.random() < 0.6
     knobs = gen_knobs(rng, latency=not exact, cost=not exact, ties=True)
-    ctrl = {'c0': rng.choice(POOL), 'c1': rng.choice(POOL)}
+    ctrl = {'c0': rng.choice(CTRL_POOL), 'c1': rng.choice(CTRL_POOL)}
     pipes = [gen_pipe(rng) for _ in range(rng.choice([1, 1, 2, 2, 3, 4]))]
     vins = []
     for i in range(rng.choice([0, 0, 1, 1, 2])):
@@ -340,7 +346,7 @@ def gen(rng, tier, index=0):
             ops.append({'op': 'put', 'vin': vi,
                         'value': rng.choice(NUMS if vin['numeric'] else POOL)})
         elif r < 0.9:
-            ops.append({'op': 'ctrl', 'name': rng.choice(['c0', 'c1']), 'value': rng.choice(POOL)})
+            ops.append({'op': 'ctrl', 'name': rng.choice(['c0', 'c1']), 'value': rng.choice(CTRL_POOL)})
         else:
             ops.append({'op': 'yield'})
     return {'knobs': knobs, 'ctrl': ctrl, 'pipes': pipes, 'vins': vins, 'nii': nii, 'ops': ops}
@@ -823,6 +829,8 @@ def execute(plan, trace=False):
                 if k == 'ifout':
                     if passed:
                         run.fired('reach:ifoutput_pass')
+                        if f.get('ref') != 'not' and isinstance(env.ctrl.get(f['ctrl']), dict):
+                            run.fired('reach:ifoutput_pass_mapping_output')
                     elif out.at == i and out.kind == 'veto':
                         run.fired('reach:ifoutput_veto')
                 if k == 'edit' and (passed or out.at == i):
